@@ -140,6 +140,11 @@ func c11Scenarios(tier string) []*h.Scenario {
 		{name: "digest-delete-vs-tag-push", threads: [][]h.Step{{del(f.Items["I1"].Dig)}, {putMan(repo, "I1", "t2")}}},
 		{name: "referrer-push-vs-two-reads", threads: [][]h.Step{{putMan(repo, "A1", f.Items["A1"].Dig)}, {getRef, getRef}}},
 		{name: "blob-upload-vs-manifest-needing-it", threads: [][]h.Step{{pushBlob(repo, "l2")}, {putMan(repo, "I2", "t2")}}},
+		// the repository is on disk but not yet known to the (restarted) server: both requests are first accesses
+		{name: "two-tag-pushes-as-first-accesses-after-restart", threads: [][]h.Step{{putMan(repo, "I1", "t")}, {putMan(repo, "I1", "t2")}}, prefix: func(w *h.World) {
+			prefix(w)
+			_ = w.Reopen()
+		}},
 		{name: "two-repositories-vs-tick", tick: true, repos: []string{repo, "q"}, threads: [][]h.Step{{putMan(repo, "I1", "t")}, {pushBlob("q", "c")}}},
 	}
 	if tier == "thorough" {
